@@ -112,8 +112,10 @@ MESSAGES = {
     'P1': ('p', lambda: PeerTransferReply.Request(1, True)),
     'P2': ('p', lambda: PeerTransferReply.Request(2, True)),
     'Q1': ('q', lambda: PeerTransferReply.Request(1, False, reason='Cancelled')),
+    'X': ('p', lambda: None),                                   # p closes its connection
+    'R1': ('p', lambda: PeerTransferReply.Request(1, True)),    # p reconnects and sends P1 on the new connection
 }
-_MSG_OBJS = {k: v[1]() for k, v in MESSAGES.items()}
+_MSG_OBJS = {k: v[1]() for k, v in MESSAGES.items() if k != 'X'}
 PROBE_MSG = lambda: GetUserStats.Response('z', STATS)  # noqa: E731
 
 
@@ -161,8 +163,10 @@ def run_one(params: dict, chooser, deviations=True) -> dict:
             network.server_connection.start_reader_task()
         world.op('setup', 'init', setup, record=False)
         world.run_default_until_idle()
+        peer_objs = {}
         for name in need_peers:
             peer = ScriptedPeer(net, name, f'10.0.1.{ord(name)}', listen=False)
+            peer_objs[name] = peer
             peers[name] = peer.connect_init(60000, 'P')
         world.run_default_until_idle()
         for conn in net.conns:
@@ -190,7 +194,12 @@ def run_one(params: dict, chooser, deviations=True) -> dict:
             tuple(sorted(ev.key for ev in world.pending)))
         for key in msgs:
             src, make = MESSAGES[key]
-            if src == 'server':
+            if key == 'X':
+                peers['p'].close()                 # the peer hangs up its only connection ...
+            elif key == 'R1':
+                peers['p'] = peer_objs['p'].connect_init(60000, 'P')      # ... comes back on a new one and answers there
+                peers['p'].send(make())
+            elif src == 'server':
                 server.send(make())
             else:
                 peers[src].send(make())
@@ -363,7 +372,7 @@ def _relevant(waiters, msgs) -> bool:
 
 
 def scenarios(tier: str):
-    keys = list(MESSAGES)
+    keys = [k for k in MESSAGES if k not in ('X', 'R1')]
     seqs = [[]] + [[k] for k in keys] + [list(p) for p in itertools.product(keys, repeat=2)]
     if tier == 'thorough':
         seqs += [list(p) for p in itertools.product(keys, repeat=3)]
@@ -374,6 +383,12 @@ def scenarios(tier: str):
     neg = c12_neg.cases(tier)
     for i in range(0, len(neg), 25):
         out.append({'neg': neg[i:i + 25]})
+    # the peer's only connection closes while a request for its reply is pending; the reply comes on a new
+    # connection of that peer, or never
+    for w in (['peerP', 10.0, None], ['peerPn', 10.0, None], ['peerP', 5.0, None]):
+        for seq in (['X'], ['X', 'R1'], ['X', 'R1', 'P1'], ['P2', 'X', 'R1']):
+            out.append({'waiters': [w], 'msgs': seq, 'coalesce': False})
+        out.append({'waiters': [w, ['peerQ', 10.0, None]], 'msgs': ['X', 'Q1', 'R1'], 'coalesce': False})
     from . import c12_cmd
     names = c12_cmd.command_classes()
     for i in range(0, len(names), 4):
@@ -426,7 +441,7 @@ def _run_cmd(params):
     from . import c12_cmd
     viols, sigs, outcomes, transitions, n = [], set(), set(), 0, 0
     for name in params['cmd']:
-        for variant in ('match', 'other'):
+        for variant in ('match', 'other0', 'other1', 'other2'):
             out = c12_cmd.run_command(name, variant)
             n += 1
             transitions += out['transitions']
